@@ -359,6 +359,15 @@ def narrow_all(xs: list[fp.Real]) -> list[fp.Real]:
 
 
 @fp.fpy
+def extremes(x: fp.Real) -> tuple[fp.Real, fp.Real, fp.Real]:
+    # values far from 1 in both directions, under whatever exponent range the caller's context has
+    a = fp.exp(x * 50)
+    b = fp.exp(0 - x * 60)
+    c = fp.sqrt(a) * b
+    return (a, b, c)
+
+
+@fp.fpy
 def tenth(x: fp.Real) -> fp.Real:
     # non-dyadic literals, rounded under whatever context the caller supplies
     y = x * 0.1
@@ -424,6 +433,7 @@ SIG = {
     'calls_failing': ['list2+', 'idx'],
     'via_picky': ['num'],
     'tenth': ['num'],
+    'extremes': ['num_small'],
     'tenth16': ['num'],
     'tenth32': ['num'],
     'uses_closure': ['num'],
@@ -458,19 +468,19 @@ SIG = {
 
 # functions whose operations run (at least partly) under the context the *caller* supplies: the ones
 # for which "the same function under another context" is a different computation
-AMBIENT = ['use_table', 'use_pass_list', 'pinned32', 'pinned_rtz16', 'calls_pinned', 'tenth', 'helper_noctx', 'calls', 'alt_loop', 'ident', 'boosted', 'dot', 'sum_enum', 'early', 'nested',
+AMBIENT = ['extremes', 'use_table', 'use_pass_list', 'pinned32', 'pinned_rtz16', 'calls_pinned', 'tenth', 'helper_noctx', 'calls', 'alt_loop', 'ident', 'boosted', 'dot', 'sum_enum', 'early', 'nested',
            'uses_closure', 'shadowing']
 
 # functions that pin their own context with @fp.fpy(ctx=...) (a common idiom): the caller's ctx= must not matter
 PINNED = ['pinned32', 'pinned_rtz16', 'calls_pinned']
 
 # functions with operations outside any `with` of their own: what a stale or leaked ambient context would change
-BARE = ['helper_noctx', 'tenth', 'boosted', 'calls', 'early', 'nested', 'uses_closure']
+BARE = ['helper_noctx', 'extremes', 'tenth', 'boosted', 'calls', 'early', 'nested', 'uses_closure']
 # programs whose failure happens below a call they make (in a callee, in a primitive)
 FAIL_BELOW = ['calls_failing', 'via_picky']
 
 # the special cases the workload was written for, rotated through by the 'focus' run shape
-SPECIAL = ['pinned32', 'narrow', 'tenth', 'use_table', 'uses_closure', 'deep', 'ret_param', 'via_prim', 'calls_failing',
+SPECIAL = ['pinned32', 'narrow', 'extremes', 'tenth', 'use_table', 'uses_closure', 'deep', 'ret_param', 'via_prim', 'calls_failing',
            'calls', 'pinned_rtz16', 'narrow_neg', 'tenth16', 'use_pass_list', 'shadowing', 'ident_pair', 'ret_pair',
            'via_picky', 'asserting', 'cap_num', 'calls_pinned', 'narrow_all', 'tenth32', 'mut_list', 'nested_lists',
            'share_call', 'indexer', 'exact_or_fail', 'trans', 'directed', 'ident', 'slices']
